@@ -51,7 +51,7 @@ func NewBackgroundObserver(
 			cacheCleanupInterval,
 			doneChan,
 		),
-		msgQueue:          newMsgQueue(logger.Named(lggr, "msgQueue")),
+		msgQueue:          newMsgQueue(logger.Named(lggr, "msgQueue"), doneChan),
 		wg:                sync.WaitGroup{},
 		done:              doneChan,
 		observeTimeout:    observeTimeout,
@@ -225,6 +225,7 @@ type msgQueue struct {
 	msgIDs           mapset.Set[cciptypes.Bytes32]
 	mu               *sync.RWMutex
 	newMsgSignalChan chan struct{}
+	done             chan struct{}
 }
 
 type msgWithInfo struct {
@@ -235,13 +236,14 @@ type msgWithInfo struct {
 	enqueuedAt time.Time
 }
 
-func newMsgQueue(lggr logger.Logger) *msgQueue {
+func newMsgQueue(lggr logger.Logger, done chan struct{}) *msgQueue {
 	return &msgQueue{
 		lggr:             lggr,
 		msgs:             make([]msgWithInfo, 0),
 		msgIDs:           mapset.NewSet[cciptypes.Bytes32](),
 		mu:               &sync.RWMutex{},
 		newMsgSignalChan: make(chan struct{}),
+		done:             done,
 	}
 }
 
@@ -271,8 +273,14 @@ func (q *msgQueue) enqueue(msg cciptypes.Message, availableAfter time.Duration) 
 	lggr.Debugw("message added to the queue, new msg signal sent", "numMsgs", len(q.msgs))
 	q.mu.Unlock()
 
+	// hand the signal over in the background: the caller (Observe) must not wait for a free worker
 	lggr.Debugw("sending to new msg signal channel")
-	q.newMsgSignalChan <- struct{}{}
+	go func() {
+		select {
+		case q.newMsgSignalChan <- struct{}{}:
+		case <-q.done:
+		}
+	}()
 	return true
 }
 
@@ -362,7 +370,7 @@ func (c *inMemTokenDataCache) get(msgID cciptypes.Bytes32) (exectypes.MessageTok
 	defer c.mu.RUnlock()
 
 	msgData, ok := c.inMemTokenData[msgID]
-	if !ok {
+	if !ok || c.hasExpired(msgID) {
 		return exectypes.MessageTokenData{}, false
 	}
 
